@@ -28,5 +28,5 @@ func size(root map[string]any, at any, args ...any) any {
 	case map[string]any:
 		length = len(tv)
 	}
-	return length
+	return int64(length)
 }
